@@ -36,3 +36,6 @@ Definition mismatches (cs : list (N * case)) : list N :=
 
 Definition spec_violations (cs : list (N * case)) : list (N * N) :=
   filter (fun x => negb (snd x =? 0)) (map (fun x => (fst x, spec_code (snd x))) cs).
+
+Definition evaluate (cs : list (N * case)) : list N * list (N * N) :=
+  (mismatches cs, spec_violations cs).
